@@ -51,6 +51,9 @@ def cases(tier, seed):
         yield "finder", dict(k=k)
     yield "cli", dict()
     yield "wholeimage", dict()
+    for w in range(len(WCSS)):
+        for size in (3, 7):
+            yield "interior", dict(wcs=w, size=size)
     for k in range(len(WIDEF)):
         for depth in ([6, 9] if tier == "quick" else [5, 6, 7, 8, 9, 10]):
             yield "widefield", dict(k=k, depth=depth)
@@ -262,6 +265,38 @@ def ev_wholeimage(case, ctx):
             ctx.violation("a region covering the whole image changes the catalogue: %d vs %d components (wcs %d)" % (len(db), len(da), w), "wholeimage|wcs=%d" % w)
 
 
+def ev_interior(case, ctx):
+    """a region much smaller than an island and lying wholly in its interior (one deep HEALPix cell under an interior pixel): the
+    island has a pixel centre in the region and must be returned; a second island elsewhere must not"""
+    hdr = header(case["wcs"], ctx.seed)
+    wcs = WCSHelper.from_header(wz.to_fits_header(hdr))
+    rows, cols = IMG
+    size = case["size"]
+    r0, c0 = 12, 15
+    im = np.zeros(IMG)
+    im[r0:r0 + size, c0:c0 + size] = 8.0
+    im[rows - 8:rows - 5, cols - 9:cols - 6] = 9.0           # the other island
+    bkg, rms = np.zeros(IMG), np.ones(IMG)
+    block = frozenset((r, c) for r in range(r0, r0 + size) for c in range(c0, c0 + size))
+    for (pr, pc) in [(r0 + size // 2, c0 + size // 2), (r0 + 1, c0 + 1), (r0 + size // 2, c0 + 1), (r0, c0)]:
+        for depth in (12, 14):
+            ctx.count("interior")
+            sig = "interior:wcs=%d,size=%d,pixel=(%d,%d),depth=%d" % (case["wcs"], size, pr, pc, depth)
+            ctx.nontrivial(sig)
+            ra, dec = wz.pix2sky(hdr, pc + 1.0, pr + 1.0)
+            reg = Region(maxdepth=depth)
+            reg.add_pixels([int(hpset.pix_of(depth, np.radians(float(ra)), np.radians(float(dec))))], depth)
+            try:
+                got = obs_islands(sfm.find_islands(im.copy(), bkg, rms, seed_clip=5, flood_clip=4, region=copy.deepcopy(reg), wcs=wcs))
+            except Exception as ex:
+                ctx.violation("find_islands(region=) raised %r (%s)" % (ex, sig), "raise|" + sig)
+                continue
+            ctx.outcome("interior:%d" % len(got))
+            if got != {block}:
+                ctx.violation("region = the one depth-%d cell that holds the centre of pixel (%d, %d) of a %dx%d island: islands returned %r, expected exactly that island (%s)" % (
+                    depth, pr, pc, size, size, [sorted(g)[:2] for g in got], sig), "interior|" + sig)
+
+
 WIDEF = [("ZEA", "centre"), ("SIN", "centre"), ("ZEA", "off"), ("SIN", "off"), ("TAN", "off"), ("ARC", "centre"),
          ("SIN", "negra"), ("CAR", "dec+40"), ("CAR", "dec-55"), ("SFL", "dec+40"), ("MER", "dec+40"), ("SIN", "near"), ("ZEA", "near")]
 
@@ -450,4 +485,4 @@ def ev_cli(case, ctx):
 
 
 def evaluate(clause, case, ctx):
-    dict(islands=ev_islands, finder=ev_finder, cli=ev_cli, wholeimage=ev_wholeimage, history=ev_history, widefield=ev_widefield)[clause](case, ctx)
+    dict(islands=ev_islands, finder=ev_finder, cli=ev_cli, wholeimage=ev_wholeimage, history=ev_history, widefield=ev_widefield, interior=ev_interior)[clause](case, ctx)
